@@ -350,12 +350,12 @@ class Normaliser:
                 return self.power(self.norm(node.args[0]), Rat.const(Fraction(1, 2)))
             if f in CAST_FUNCS and len(node.args) == 1 and not self.keep_casts:
                 return self.norm(node.args[0])
-            args = [self.norm(a).key() for a in node.args]
+            args = [desqrt(self.norm(a)).key() for a in node.args]
             kws = [f"{k.arg}={self.norm(k.value).key()}" for k in node.keywords]
-            recv = ""
             if isinstance(node.func, ast.Attribute) and not _is_module_ref(node.func.value):
-                recv = self.norm(node.func.value).key() + "."
-            return Rat.atom(f"{recv}{f}[{';'.join(args + kws)}]")
+                # method call: X.f(args) is written f[X;args] so that X.sum() and np.sum(X) coincide
+                args = [desqrt(self.norm(node.func.value)).key()] + args
+            return Rat.atom(f"{f}[{';'.join(args + kws)}]")
         if isinstance(node, ast.ListComp) and len(node.generators) == 1 and not node.generators[0].ifs \
                 and isinstance(node.generators[0].target, ast.Name):
             gen = node.generators[0]
